@@ -16,10 +16,21 @@ import (
 	"time"
 
 	"verifharness/lib"
+	"verifharness/wire"
 )
 
 var c08ClientOps = []string{"Stat", "Lstat", "File.Stat", "ReadDir", "ReadLink", "RealPath", "Getwd", "Open", "Create", "StatVFS",
-	"File.Read", "File.ReadAt-single", "File.ReadAt-sequential", "File.ReadAt-concurrent", "File.WriteTo-sequential"}
+	"File.Read", "File.ReadAt-single", "File.ReadAt-sequential", "File.ReadAt-concurrent", "File.WriteTo-sequential", "File.WriteTo-concurrent"}
+
+// c08ClientOverOps: the operations that decode DATA replies — each has its own decoder (readChunkAt for Read, the
+// single-chunk and the sequential ReadAt and the sequential WriteTo; the worker goroutines of the concurrent ReadAt;
+// the worker goroutines of the concurrent WriteTo, which slice a pooled chunk buffer). Every READ of theirs is answered
+// with a WELL-FORMED DATA reply carrying more bytes than were asked for (c20.go: mutation "over").
+var c08ClientOverOps = []string{"File.Read", "File.ReadAt-single", "File.ReadAt-single-short", "File.ReadAt-sequential", "File.ReadAt-concurrent", "File.ReadAt-concurrent-eof",
+	"File.ReadAt-concurrent-2workers", "File.WriteTo-sequential", "File.WriteTo-concurrent", "File.WriteTo-concurrent-fstat", "File.WriteTo-concurrent-2workers"}
+
+// c08ClientOverBy: 1 and 9 bytes, one chunk (MaxPacket is 16 in the operation table) and 200000 bytes more than requested.
+var c08ClientOverBy = []int{1, 9, cliMaxPacket, 200000}
 
 var c08ClientBases = []string{"valid", "status-fail", "handle", "data", "name2", "attrs"}
 
@@ -42,7 +53,19 @@ func c08ClientAlloc(c *lib.Ctx, replay *c20Case) {
 		}
 		var ops []string
 		var dryCases []json.RawMessage
+		fieldOp := map[string]bool{}
 		for _, name := range c08ClientOps {
+			fieldOp[name] = true
+		}
+		overOp := map[string]bool{}
+		all := append([]string(nil), c08ClientOps...)
+		for _, name := range c08ClientOverOps {
+			overOp[name] = true
+			if !fieldOp[name] {
+				all = append(all, name)
+			}
+		}
+		for _, name := range all {
 			if !known[name] {
 				r.Fail(lib.Failure{Kind: "tie", Key: "clientalloc/unknown-op", What: "operation " + name + " is not in the client operation table (cli_ops.go)"})
 				continue
@@ -66,6 +89,20 @@ func c08ClientAlloc(c *lib.Ctx, replay *c20Case) {
 				continue
 			}
 			c20DryCache.Store(name, res.Replies)
+			if overOp[name] {
+				// over-delivering DATA: every READ of the operation (the deterministic prefix of a concurrent WriteTo)
+				for j := 0; j < c20Nrep(name, res) && j < len(res.ReqTyps); j++ {
+					if res.ReqTyps[j] != int(wire.Read) {
+						continue
+					}
+					for _, n := range c08ClientOverBy {
+						cases = append(cases, c20Case{Op: name, Idx: j, Mut: c20Mut{Base: "valid", Kind: "over", N: n}})
+					}
+				}
+			}
+			if !fieldOp[name] {
+				continue
+			}
 			nrep := min(len(res.Replies), 6)
 			for j := 0; j < nrep; j++ {
 				valid := lib.UnHex(res.Replies[j])
@@ -112,7 +149,13 @@ func c08ClientAlloc(c *lib.Ctx, replay *c20Case) {
 		if k := strings.Index(field, "-"); k >= 0 && strings.HasPrefix(field, "name") && field != "name-count" {
 			field = "nameN" + field[k:]
 		}
-		r.Hist("client-" + map[bool]string{true: "valid", false: "substituted"}[cs.Mut.Base == "valid"] + "/" + field)
+		if cs.Mut.Kind == "over" {
+			in.Mut = "reply-data-over"
+			r.Hist(fmt.Sprintf("client-data-over/+%d", cs.Mut.N))
+			r.Hist("client-data-over/" + cs.Op)
+		} else {
+			r.Hist("client-" + map[bool]string{true: "valid", false: "substituted"}[cs.Mut.Base == "valid"] + "/" + field)
+		}
 		expected := "the call returns a value or an error having allocated at most 64 x reply bytes + 1 MiB"
 		if d := deaths[i]; d != nil {
 			if !d.Confirmed {
@@ -150,7 +193,7 @@ func c08ClientAlloc(c *lib.Ctx, replay *c20Case) {
 		r.Note("client reply decoding: failing cases per operation: %v", failing)
 	}
 	if replay == nil {
-		r.Note("client reply decoding: %d cases (%d operations x replies x count/length words x {2^16, 2^24, 2^31-1, 2^32-1}); largest allocation during one call: %d bytes", len(cases), len(c08ClientOps), maxAlloc)
+		r.Note("client reply decoding: %d cases (%d operations x replies x count/length words x {2^16, 2^24, 2^31-1, 2^32-1}; %d DATA-decoding operations x every READ x DATA replies carrying 1, 9, 16 (one chunk), 200000 bytes more than requested); largest allocation during one call: %d bytes", len(cases), len(c08ClientOps), len(c08ClientOverOps), maxAlloc)
 		if len(cases) > 0 {
 			r.Sample(c08Case{Entry: "client", Kind: cases[0].Op, Mut: "reply-field", Client: &cases[0]})
 		}
